@@ -24,6 +24,15 @@ InlineOpViol(o) ==
            THEN {} ELSE {"emphasis"})
      \cup (IF Len(P) = Len(I) /\ \A k \in 1..Len(I) : I[k][5] = ~EndsNl(P[k][4])
            THEN {} ELSE {"missing_newline"})
+     \* beyond the listed properties (UTF-8 text): an inline change prints its segments in
+     \* order, emphasised ones of a Delete / Insert wrapped in '-' / '+', and a final line feed
+     \* when the line lacks one
+     \cup (IF "utf8" \in DOMAIN o /\ o.utf8 /\ \E k \in 1..Len(I) : Len(I[k]) >= 6 /\
+                LET mark == IF I[k][1] = 1 THEN <<45>> ELSE IF I[k][1] = 2 THEN <<43>> ELSE <<>>
+                    segs == [s \in 1..Len(I[k][4]) |->
+                               IF I[k][4][s][1] = 1 THEN mark \o I[k][4][s][2] \o mark ELSE I[k][4][s][2]]
+                IN I[k][6] # FlattenSeq(segs) \o (IF I[k][5] THEN <<10>> ELSE <<>>)
+           THEN {"beyond_inline_display"} ELSE {})
 
 InlineViol(r) ==
   IF r.panic THEN {"panic"}
